@@ -649,15 +649,16 @@ class Prefix:
         name: Optional[str] = None,
         symbol: Optional[str] = None,
     ) -> "Prefix":
-        if base != 0 and exponent == 0:
-            return IdentityPrefix
-
         key = (base, exponent)
-        existing = cls._known.get(key)
+        identity = base != 0 and exponent == 0
+        existing = IdentityPrefix if identity else cls._known.get(key)
         if name and cls._by_name.get(name, existing) is not existing:
             raise ValueError(f"A prefix named {name} is already defined")
         if symbol and cls._by_symbol.get(symbol, existing) is not existing:
             raise ValueError(f"A prefix with symbol {symbol} is already defined")
+
+        if identity:
+            return IdentityPrefix
 
         if key in cls._known:
             return cls._known[key]
